@@ -366,4 +366,89 @@ theorem bindParams1 (a : String) (c : Call) (vs : List Val) (h : bindParams [(a,
           exact ⟨a0, rfl, Or.inl ⟨rfl, rfl⟩⟩
         · simp [hargs] at hlen
 
+theorem ravel_unravel : ∀ (s : Shape) (x : Nat), x < prod s → ravel (unravel x s) s = x
+  | [], x, h => by simp [prod] at h; subst h; rfl
+  | d :: s, x, h => by
+    have hP : 0 < prod s := by
+      rcases Nat.eq_zero_or_pos (prod s) with h0 | h0
+      · simp [prod, h0] at h
+      · exact h0
+    simp only [unravel, ravel]
+    rw [ravel_unravel s (x % prod s) (Nat.mod_lt _ hP)]
+    exact Nat.div_add_mod' x (prod s)
+
+/-- in-bounds coordinates restricted to a sub-range of the dims -/
+theorem InB_drop_take : ∀ {c : List Nat} {s : Shape} (a k : Nat), InB c s → InB ((c.drop a).take k) ((s.drop a).take k)
+  | [], [], a, k, _ => by simp [InB]
+  | x :: cs, d :: s, 0, 0, _ => by simp [InB]
+  | x :: cs, d :: s, 0, k + 1, h => by
+    simp only [InB] at h
+    simp only [List.drop_zero, List.take_succ_cons, InB]
+    exact ⟨h.1, by simpa using InB_drop_take 0 k h.2⟩
+  | x :: cs, d :: s, a + 1, k, h => by
+    simp only [InB] at h
+    simpa using InB_drop_take a k h.2
+  | [], _ :: _, _, _, h => by simp [InB] at h
+  | _ :: _, [], _, _, h => by simp [InB] at h
+
+/-- two parameters with defaults: the spellings Python accepts -/
+theorem bindParams2d (a b : String) (da db : Val) (c : Call) (vs : List Val)
+    (h : bindParams [(a, some da), (b, some db)] c = .ok vs) :
+    ∃ x y, vs = [x, y] ∧
+    ((c.args = [x, y] ∧ c.kw a = Option.none ∧ c.kw b = Option.none) ∨
+     (∃ hx : c.args = [x], c.kw a = Option.none ∧ y = (c.kw b).getD db) ∨
+     (c.args = [] ∧ x = (c.kw a).getD da ∧ y = (c.kw b).getD db)) := by
+  unfold bindParams at h
+  split at h
+  · cases h
+  · split at h
+    · cases h
+    · split at h
+      · cases h
+      · rename_i hlen _ _
+        simp only [bindLoop, bindOne] at h
+        rcases hargs : c.args with _ | ⟨a0, _ | ⟨a1, _ | ⟨a2, rest⟩⟩⟩
+        · simp only [hargs, List.getElem?_nil] at h
+          rcases hka : c.kw a with _ | va <;> rcases hkb : c.kw b with _ | vb <;> simp [hka, hkb] at h <;> subst h
+          · exact ⟨da, db, rfl, Or.inr (Or.inr ⟨rfl, rfl, rfl⟩)⟩
+          · exact ⟨da, vb, rfl, Or.inr (Or.inr ⟨rfl, rfl, rfl⟩)⟩
+          · exact ⟨va, db, rfl, Or.inr (Or.inr ⟨rfl, rfl, rfl⟩)⟩
+          · exact ⟨va, vb, rfl, Or.inr (Or.inr ⟨rfl, rfl, rfl⟩)⟩
+        · simp only [hargs, List.getElem?_cons_zero, List.getElem?_cons_succ, List.getElem?_nil] at h
+          rcases hka : c.kw a with _ | va <;> rcases hkb : c.kw b with _ | vb <;> simp [hka, hkb] at h <;> subst h
+          · exact ⟨a0, db, rfl, Or.inr (Or.inl ⟨rfl, rfl, rfl⟩)⟩
+          · exact ⟨a0, vb, rfl, Or.inr (Or.inl ⟨rfl, rfl, rfl⟩)⟩
+        · simp only [hargs, List.getElem?_cons_zero, List.getElem?_cons_succ] at h
+          rcases hka : c.kw a with _ | va <;> rcases hkb : c.kw b with _ | vb <;> simp [hka, hkb] at h
+          subst h
+          exact ⟨a0, a1, rfl, Or.inl ⟨rfl, rfl, rfl⟩⟩
+        · simp [hargs] at hlen
+
+/-- one parameter with a default -/
+theorem bindParams1d (a : String) (da : Val) (c : Call) (vs : List Val)
+    (h : bindParams [(a, some da)] c = .ok vs) :
+    ∃ x, vs = [x] ∧ ((c.args = [x] ∧ c.kw a = Option.none) ∨ (c.args = [] ∧ x = (c.kw a).getD da)) := by
+  unfold bindParams at h
+  split at h
+  · cases h
+  · split at h
+    · cases h
+    · split at h
+      · cases h
+      · rename_i hlen _ _
+        simp only [bindLoop, bindOne] at h
+        rcases hargs : c.args with _ | ⟨a0, _ | ⟨a1, rest⟩⟩
+        · simp only [hargs, List.getElem?_nil] at h
+          rcases hka : c.kw a with _ | va <;> simp [hka] at h <;> subst h
+          · exact ⟨da, rfl, Or.inr ⟨rfl, rfl⟩⟩
+          · exact ⟨va, rfl, Or.inr ⟨rfl, rfl⟩⟩
+        · simp only [hargs, List.getElem?_cons_zero] at h
+          rcases hka : c.kw a with _ | va <;> simp [hka] at h
+          subst h
+          exact ⟨a0, rfl, Or.inl ⟨rfl, rfl⟩⟩
+        · simp [hargs] at hlen
+
+theorem asInts_ok {v : Val} {l : List Int} (h : asInts v = .ok l) : v = .ints l := by
+  cases v <;> simp [asInts] at h; subst h; rfl
+
 end TdVerif.C17
